@@ -34,6 +34,7 @@ impl Corpus {
         for (i, m) in [0, 2].into_iter().enumerate() {
             files.push((format!("~synthetic-full-{i}.osu"), synthetic_full(m).into_bytes()));
         }
+        files.push(("~synthetic-odd.osu".to_string(), synthetic_odd().into_bytes()));
         let small = (0..files.len()).filter(|&i| files[i].1.len() <= 8192).collect();
         let large = (0..files.len()).filter(|&i| files[i].1.len() > 8192).collect();
         Ok(Corpus { files, small, large })
@@ -561,7 +562,7 @@ pub fn gen_osu(rng: &mut Rng) -> String {
             }
             "Events" => {
                 for _ in 0..rng.below(6) {
-                    let l = match rng.below(9) {
+                    let l = match rng.below(11) {
                         0 => format!("0,0,\"{}\",0,0", rng.pick(&["bg.jpg", "b g.png", "x.avi"])),
                         1 => format!("Video,{},\"{}\"", num(rng, -500, 500), rng.pick(&["v.mp4", "V.AVI", "img.JPG", "i.png"])),
                         2 => format!("2,{},{}", time + rng.range(0, 5000), time + rng.range(0, 9000)),
@@ -570,6 +571,8 @@ pub fn gen_osu(rng: &mut Rng) -> String {
                         5 => " F,0,100,200,0,1".to_string(),
                         6 => "Sample,1000,0,\"s.wav\",80".to_string(),
                         7 => format!("{},0", rng.pick(HOSTILE)),
+                        9 => format!("0,0,\"{}\",0,0", rng.pick(&["$bg", "$a", "$b", "$e", "$var", "$x"])),
+                        10 => format!("Sprite,Background,Centre,\"{}\",320,240", rng.pick(&["$bg", "$a", "$section"])),
                         _ => "//Storyboard Layer 0 (Background)".to_string(),
                     };
                     o.push_str(&l);
@@ -591,7 +594,7 @@ pub fn gen_osu(rng: &mut Rng) -> String {
             }
             "Variables" | "CatchTheBeat" | "Mania" => {
                 for _ in 0..rng.below(4) {
-                    o.push_str(*rng.pick(&["$var=1", "$x=320,240", "Keys: 4", "Foo: bar", "1,2,3", "garbage", "[Unknown]"]));
+                    o.push_str(*rng.pick(&["$var=1", "$x=320,240", "Keys: 4", "Foo: bar", "1,2,3", "garbage", "[Unknown]", "$bg=backgrounds/$bg", "$a=$b.png", "$b=$a.jpg", "$section=[HitObjects]", "x[General]", "$e=0,0,\"$e\",0,0", "$=", "$$=$$"]));
                     o.push_str(nl);
                 }
             }
@@ -634,6 +637,12 @@ pub fn synthetic_full(mode: i64) -> String {
     format!(
         "osu file format v14\n\n[General]\nAudioFilename: audio file.mp3\nAudioLeadIn: 500\nPreviewTime: 12345\nCountdown: 2\nSampleSet: Soft\nSampleVolume: 70\nStackLeniency: 0.4\nMode: {mode}\nLetterboxInBreaks: 1\nSpecialStyle: 1\nWidescreenStoryboard: 1\nEpilepsyWarning: 1\nSamplesMatchPlaybackRate: 1\nCountdownOffset: 2\n\n[Editor]\nBookmarks: 1000,2000,3000\nDistanceSpacing: 1.5\nBeatDivisor: 8\nGridSize: 16\nTimelineZoom: 2.5\n\n[Metadata]\nTitle:Synthetic: full // featured\nTitleUnicode:\u{5408}\u{6210}\nArtist:rosu-sim\nArtistUnicode:\u{30B7}\u{30DF}\nCreator:verif\nVersion:Everything\nSource:none\nTags:a b c\nBeatmapID:123456\nBeatmapSetID:654321\n\n[Difficulty]\nHPDrainRate:6.5\nCircleSize:4.2\nOverallDifficulty:8.3\nApproachRate:9.1\nSliderMultiplier:1.7\nSliderTickRate:2\n\n[Events]\n0,0,\"bg image.jpg\",0,0\nVideo,-120,\"intro.mp4\"\n2,5000,7000\n2,20000,23000\n\n[TimingPoints]\n0,400,4,2,1,70,1,0\n1000,-50,4,2,1,70,0,1\n2000,-133.33,4,3,2,40,0,0\n4000,300,3,1,0,100,1,8\n4000,-80,3,1,0,100,0,1\n9000,NaN,4,1,0,100,0,0\n\n[Colours]\nCombo1 : 255,0,0\nCombo2 : 0,255,0\nCombo3 : 0,0,255\nSliderBorder : 200,200,200\nSliderTrackOverride : 10,20,30\n\n[HitObjects]\n64,64,500,5,2,1:2:3:60:custom.wav\n128,128,1000,2,4,B|200:200|300:100|300:100|L|350:50,2,220.5,2|4|8,1:2|0:0|3:1,2:1:4:50:\n256,192,3000,12,8,4500,0:0:0:0:\n100,300,9000,6,0,P|150:350|200:300,1,110\n300,100,10000,2,0,C|320:120|340:90|360:140,3,150,0|2|0|2,0:0|1:1|2:2|3:3,0:0:0:0:\n400,50,12000,128,2,12800:1:0:0:0:\n50,50,14000,1,0\n"
     )
+}
+
+/// A hand-written file made of legal oddities: the three rarely used sections, brackets and comment markers in the middle
+/// of lines, repeated and out-of-order sections, indented records, blank and whitespace-only lines, CRLF and LF mixed.
+pub fn synthetic_odd() -> String {
+    "\r\n  \n// generated\nosu file format v9\r\n\n[Variables]\n$section=[HitObjects]\n$bg=bg.png\nx[General]\n$c=a//b\n\n[General]\nMode: 3 // mania\n AudioFilename: a[1].mp3\n\n[Mania]\nKeys: 7\n[Unknown]\nstill mania [Events]\n\n[CatchTheBeat]\nfoo=[Metadata]\n\n[Metadata]\nTitle:[HitObjects]\nArtist:// not a comment\nTags:a [b] c//d\n\n[HitObjects]\n64,192,1000,1,0,0:0:0:0:\n 192,192,1500,128,0,1800:0:0:0:0:\n[Events]\n0,0,\"b[g].png\",0,0\n[HitObjects]\n320,192,2000,5,0\n\n[TimingPoints]\n0,500,4,1,0,100,1,0\n1000,-100,4,1,0,100,0,0 // [Colours]\n\n[Colours]\nCombo1 : 1,2,3\n[Variables]\n$late=[TimingPoints]\n5000,-50,4,1,0,100,0,0\n".to_string()
 }
 
 /// Rewrite (or insert) the `Mode:` line.
